@@ -49,9 +49,11 @@ ASSUMPTIONS = ["the stores behave as sets of triples per graph (C01/C02); Datase
                "return a value: the specification adopts rdflib's (= false, != true, boolean < integer < string)",
                "EXISTS patterns are limited to constructs for which §18.6 `substitute` is unambiguous "
                "(triples, groups, UNION, a top-level FILTER, GRAPH)",
-               "initBindings = {} (C15 covers initial bindings)"]
+               "initBindings = {} (C15 covers initial bindings): nothing is pushed in at the top of a query, which is what the "
+               "hypothesis Alg.safeIn [] of eval_correct_top uses"]
 TRUSTED = ["harness/sparqlgen.py (generator, SPARQL printer, s-expression encoders incl. the reader of rdflib's algebra "
-           "tree, Python reference evaluator)", "lean/RV/C04/Drive.lean (s-expression parser, printer)",
+           "tree and of its `lazy` / `_vars` annotations, Python reference evaluator)",
+           "lean/RV/C04/Drive.lean (s-expression parser, printer)",
            "pyparsing tokenisation of the generated query text (the generator only prints fully parenthesised text)"]
 
 
